@@ -11,14 +11,21 @@ package querylog
 //vx:stub time.Now vxC05QNow
 //vx:stub (*github.com/AdguardTeam/AdGuardHome/internal/querylog.queryLog).searchFiles vxC05QSearchFiles
 //vx:opaque (net.IP).String
+//vx:stub (*encoding/json.Decoder).Decode vxC05QJSONDecode
+//vx:stub github.com/AdguardTeam/AdGuardHome/internal/aghhttp.WriteJSONResponse vxC05QWriteJSON
+//vx:stub github.com/AdguardTeam/AdGuardHome/internal/aghnet.NewIgnoreEngine vxC05QNewIgnore
+//vx:stub os.Remove vxC05QRemove
 
 import (
 	"context"
+	"encoding/json"
 	"log/slog"
 	"net"
+	"net/http"
 	"sync"
 	"time"
 
+	"github.com/AdguardTeam/AdGuardHome/internal/aghalg"
 	"github.com/AdguardTeam/AdGuardHome/internal/aghnet"
 	"github.com/AdguardTeam/AdGuardHome/internal/filtering"
 	"github.com/AdguardTeam/AdGuardHome/internal/vx"
@@ -34,6 +41,32 @@ func vxC05QSearchFiles(l *queryLog, ctx context.Context, params *searchParams, c
 
 func vxC05QNow() time.Time                                     { return time.Unix(1_700_000_000, 0) }
 
+// vxC05QJSONDecode stands for the JSON decoder of the admin API: a fixed valid
+// configuration request.
+func vxC05QJSONDecode(dec *json.Decoder, v any) error {
+	switch r := v.(type) {
+	case *getConfigResp:
+		r.Interval = 86_400_000
+		r.Enabled = aghalg.NBTrue
+		r.AnonymizeClientIP = aghalg.NBFalse
+	case *configJSON:
+		r.Interval = 1
+		r.Enabled = aghalg.NBTrue
+		r.AnonymizeClientIP = aghalg.NBTrue
+	}
+	return nil
+}
+
+func vxC05QWriteJSON(w http.ResponseWriter, r *http.Request, code int, resp any) {}
+func vxC05QNewIgnore(ignored []string) (*aghnet.IgnoreEngine, error)        { return &aghnet.IgnoreEngine{}, nil }
+func vxC05QRemove(name string) error                                        { return nil }
+
+type vxC05QWriter struct{ h http.Header }
+
+func (w *vxC05QWriter) Header() http.Header         { return w.h }
+func (w *vxC05QWriter) Write(b []byte) (int, error) { return len(b), nil }
+func (w *vxC05QWriter) WriteHeader(code int)        {}
+
 func vxC05QueryLog() {
 	l := &queryLog{
 		logger: slog.Default(),
@@ -46,12 +79,28 @@ func vxC05QueryLog() {
 		findClient: func(ids []string) (*Client, error) { return nil, nil },
 		buffer:     container.NewRingBuffer[*logEntry](4),
 	}
+	l.conf.ConfigModified = func() {
+		saved := Config{}
+		l.WriteDiskConfig(&saved)
+	}
 	vx.Guard(&l.buffer, &l.bufferLock, "querylog.queryLog.buffer")
 	vx.Guard(&l.conf, l.confMu, "querylog.queryLog.conf")
 
 	req := &dns.Msg{}
 	req.Question = []dns.Question{{Name: "example.org.", Qtype: dns.TypeA, Qclass: dns.ClassINET}}
-	switch vx.Choice("op", 4) {
+	w := &vxC05QWriter{h: http.Header{}}
+	r := (&http.Request{Method: http.MethodPut, Header: http.Header{"Content-Type": {"application/json"}}, Body: http.NoBody}).WithContext(context.Background())
+	switch vx.Choice("op", 9) {
+	case 4: // admin: new configuration API
+		l.handlePutQueryLogConfig(w, r)
+	case 5: // admin: old configuration API
+		l.handleQueryLogConfig(w, r)
+	case 6: // admin: read the configuration
+		l.handleGetQueryLogConfig(w, r)
+	case 7:
+		l.handleQueryLogInfo(w, r)
+	case 8: // admin: clear the log
+		l.handleQueryLogClear(w, r)
 	case 0: // request path
 		l.ShouldLog("example.org", dns.TypeA, dns.ClassINET, []string{"1.2.3.4"})
 	case 1: // request path
